@@ -58,3 +58,35 @@ def fmt(spec):
     if len(spec) > 4 and spec[4] is not None:
         f.parsing_failed_comment = spec[4]
     return f
+
+
+def apply_history(lib, steps):
+    """Libraries are not only constructed: they are edited.  steps = [["remove", i], ["rekey", i, key], ["replace", i, spec],
+    ["add", spec], ["readd", i]] act on the block at position i % len(blocks) through the public API; a step the library
+    refuses (ValueError/KeyError, e.g. a key collision) is skipped.  Returns the number of steps that took effect."""
+    done = 0
+    for st in steps:
+        bl = lib.blocks
+        try:
+            if st[0] == "add":
+                lib.add(block(st[1]))
+            elif not bl:
+                continue
+            elif st[0] == "remove":
+                lib.remove(bl[st[1] % len(bl)])
+            elif st[0] == "rekey":
+                b = bl[st[1] % len(bl)]
+                if not hasattr(b, "key") or not hasattr(b, "fields") and not hasattr(b, "value"):
+                    continue
+                b.key = st[2]
+            elif st[0] == "replace":
+                lib.replace(bl[st[1] % len(bl)], block(st[2]), fail_on_duplicate_key=False)
+            elif st[0] == "readd":
+                b = bl[st[1] % len(bl)]
+                lib.remove(b)
+                lib.add(b)
+            done += 1
+        except (ValueError, KeyError, AssertionError):
+            # (AssertionError: the library's own consistency assertion after a block was re-keyed behind its back)
+            continue
+    return done
